@@ -373,6 +373,19 @@ def judge(shard_id: int, recs: List[Dict[str, Any]]):
     return verdict
 
 
+def power_state_scripts():
+    """scripts that END in each low-power state (cross loading happens at the end of a script): the bundle's power-state member
+    as written by one implementation and read by the other, with and without idle steps after the HALT / OFF"""
+    def S(k, **kw):
+        return {"ev": "Step", "ins": dict({"k": k}, **kw)}
+    out = []
+    for low in ("HALT", "OFF"):
+        for idle in (0, 2):
+            out.append([S("NOP"), S("SETIMR", v=0), S(low)] + [S("NOP")] * idle)
+            out.append([{"ev": "TimerCfg", "pm": 50, "ps": 70}, S("NOP"), S("ALU"), S(low)] + [S("NOP")] * idle)
+    return out
+
+
 def cross_records(mh, vh, shard: int, tmp: Path, scripts) -> List[Dict[str, Any]]:
     """each implementation's bundle loaded by the other; the immediately visible common state must be the saver's"""
     recs = []
@@ -435,7 +448,7 @@ def _job(arg):
                 except OSError:
                     pass
         if do_cross:
-            xr = cross_records(mh, vh, shard_id, tmp, scripts[:6])
+            xr = cross_records(mh, vh, shard_id, tmp, scripts[:6] + power_state_scripts())
             for r in xr:
                 layouts.setdefault(r["impl"].split("->")[0], r.pop("layout"))
             recs += xr
@@ -459,6 +472,8 @@ def _job(arg):
         comp0 = str(x[3]).split(".")[0]
         if str(x[1]) in ("SameFuture", "CrossLoad") and 1 <= k <= len(r["orig"]) and comp0 in r["orig"][k - 1]:
             detail = f"original {r['orig'][k - 1][comp0]} restored {r['rest'][k - 1][comp0]}"
+            if comp0 == "pw":      # which power state became which: "off loaded as halted" is recorded, "off loaded as running" is not
+                x[3] = f"pw={r['orig'][k - 1]['pw']}>{r['rest'][k - 1]['pw']}"
         bad.append((str(x[1]), r["impl"], str(x[3]), r["cls"], k, detail, r["lerr"], r["replay"]))
     return len(recs), bad[:3000], len(bad), layouts
 
